@@ -56,7 +56,9 @@ MANIFEST = {
             "checked by the oracle on every deepcopy call; which ids get_markings returns and "
             "what is_marked answers is not modelled either, only their heap effect). Only snapshot-tested: validate/iterpath, "
             "serialization, equality, parse of text, filesystem store, Environment, queries, "
-            "save/load, object similarity (harness/impl/snapshot.py offers the same oracle to other workers). Trusted: Coq kernel + "
+            "save/load, object similarity (harness/impl/snapshot.py offers the same oracle to other workers). The snapshot also covers what the caller handed over at registration time (property lists, "
+            "id_contrib_props) and the class-level tables of all registered classes; 90 cases are re-run under other "
+            "TZ / PYTHONHASHSEED and must behave the same. Trusted: Coq kernel + "
             "vm_compute, hand-written heap model (validated each run by the aliasing correspondence), CPython "
             "semantics of dict/list/copy.deepcopy, the snapshot function of harness/impl/c13_impl.py. No axioms.",
     "technique": "Coq proof over a hand model with explicit heap + aliasing correspondence + snapshot oracle",
@@ -183,10 +185,39 @@ def parse_model_line(line):
     return out
 
 
+def refs_of(op):
+    """env indices an op reads"""
+    out = set()
+    for key in ("arg", "kw", "marking", "selectors", "store", "factory", "other", "valid_refs", "env"):
+        if isinstance(op.get(key), int) and not isinstance(op.get(key), bool):
+            out.add(op[key])
+    out.update(op.get("args", []))
+
+    def walk(j):
+        if isinstance(j, dict):
+            if "$r" in j:
+                out.add(j["$r"])
+            for v in j.values():
+                walk(v)
+        elif isinstance(j, list):
+            for v in j:
+                walk(v)
+    if op["op"] == "mk":
+        walk(op["v"])
+    return out
+
+
 def compare(case, obs, model):
-    """-> (disagreement or None, divergence exception name or None, ops compared)"""
+    """-> (disagreement or None, first divergence exception name or None, ops compared).
+    Where the library rejects what the model accepts (validation is not modelled) the result of
+    that call is tainted; the comparison goes on with the calls that do not read a tainted result."""
     n = 0
+    tainted = set()
+    first_div = None
     for k, (op, o, m) in enumerate(zip(case["ops"], obs["ops"], model)):
+        if refs_of(op) & tainted:
+            tainted.add(k)
+            continue
         n += 1
         imut = sorted((x["env"] for x in o["mut"]), key=str)
         if imut != sorted(m["m"]):
@@ -196,13 +227,16 @@ def compare(case, obs, model):
                 return ({"op": k, "what": "containers shared between earlier objects and the result",
                          "impl": sorted(o["shared"]), "model": m["s"], "call": describe(op)}, None, n)
         elif o["exc"] is not None and m["status"] == "ok":
-            return (None, o["exc"], n)           # the library rejected (validation is not modelled): stop here
+            tainted.add(k)                       # the library rejected (validation is not modelled)
+            if isinstance(op.get("store"), int):
+                tainted.add(op["store"])         # ... and the model's store took what the library's did not
+            first_div = first_div or o["exc"]
         elif o["exc"] is None:
             return ({"op": k, "what": "model fails, library succeeds", "model": m["status"], "call": describe(op)}, None, n)
         else:
             if op["op"] in REFUSAL_OPS and m["status"] != "exc:" + o["exc"]:
                 return ({"op": k, "what": "refusal", "impl": o["exc"], "model": m["status"]}, None, n)
-    return (None, None, n)
+    return (None, first_div, n)
 
 
 # --------------------------------------------------------------------------
@@ -274,12 +308,23 @@ def check(run):
                                  {"cases": len(hung), "first": {"kind": c["kind"], "call": describe(c["ops"][k]), "ops": c["ops"][:k + 1]}}))
 
     # ---- process environment: the same cases under another zone / hash seed must behave the same
-    sub = [c for c in cases if "harness_error" not in c][: (600 if thorough else 120)]
+    sub = [c for c in cases if "harness_error" not in c][10:(610 if thorough else 100)]
     base = {common.case_hash(c): r for c, r in zip(cases, impl)}
     env_diff = []
-    for label, extra in (("TZ=EST5EDT", {"TZ": "EST5EDT"}), ("TZ=JST-9 PYTHONHASHSEED=1234", {"TZ": "JST-9", "PYTHONHASHSEED": "1234"})):
+    variants = (("TZ=EST5EDT", {"TZ": "EST5EDT"}), ("TZ=JST-9 PYTHONHASHSEED=1234", {"TZ": "JST-9", "PYTHONHASHSEED": "1234"}))
+    from concurrent.futures import ThreadPoolExecutor
+
+    def _variant(extra):
         try:
-            got = run_impl_env(sub, extra)
+            return run_impl_env(sub, extra)
+        except RuntimeError as e:
+            return e
+    with ThreadPoolExecutor(max_workers=2) as ex:
+        results = list(ex.map(_variant, [v[1] for v in variants]))
+    for (label, extra), got in zip(variants, results):
+        try:
+            if isinstance(got, RuntimeError):
+                raise got
         except RuntimeError as e:
             run.broken.append(Broken("harness", "worker failed under " + label, {"error": str(e)[-800:]}))
             continue
